@@ -123,7 +123,14 @@ func ruleReloadInPlace(c *Ctx, r *R) {
 		r.check(fresh, "GLOBALSTRUCT new", pos, "writes a new type object", "GLOBALSTRUCT does not define a new type")
 	}
 	if ps, pos := get("codeGlobalSet"); ps != nil {
-		good := len(ps) == 1 && strings.Contains(strings.Join(ps[0].Calls, ";"), "lookup.Assign(v.globals, int(I.A), Top1)")
+		// every path stores the value: through Assign, or raw (Write) for a constant declaration
+		good := len(ps) >= 1
+		for _, p := range ps {
+			calls := strings.Join(p.Calls, ";")
+			if !strings.Contains(calls, "lookup.Assign(v.globals, int(I.A), Top1)") && !strings.Contains(calls, "lookup.Write(v.globals, int(I.A), Top1)") {
+				good = false
+			}
+		}
 		r.check(good, "GLOBALSET", pos, "always assigns (variables with an initialiser are re-initialised)", "GLOBALSET no longer assigns unconditionally")
 	}
 	// addMethod
